@@ -461,6 +461,91 @@ def valid_others(rng: Any, sh: T.Shape, count: int) -> list[Case]:
     return out
 
 
+def enumerated_non_update(rng: Any, sh: T.Shape, tier: str) -> list[Case]:
+    """The lazy parts of the NON-UPDATE messages depend on a few header fields and on the shape of the data that
+    follows: enumerate the fields, cross them with data shapes (instead of sampling both)."""
+    out: list[Case] = []
+    room = sh.msg_size - 19
+    quick = tier == 'quick'
+    # NOTIFICATION: every code 0-7 x subcode 0-12 (defined or not), + a few far ones
+    pairs = [(c, s) for c in range(8) for s in range(13)] + [(255, 255), (6, 255), (9, 1), (128, 0)]
+    for c, s in pairs:
+        me = bytes([c, s])
+        shapes: list[tuple[str, bytes]] = [
+            ('empty', b''),
+            ('1-byte-zero', b'\x00'),
+            ('1-byte-code', bytes([c])),
+            ('1-byte-ff', b'\xff'),
+            ('self-1', me),
+            ('self-2', me * 2),
+            ('self-half', me * 2 + bytes([c])),
+            ('self-300', me * 300),
+            ('self-max', (me * ((room - 2) // 2 + 1))[: room - 2]),
+            ('other-notification', bytes([3, 1]) + b'text'),
+            ('shutdown-ok', bytes([11]) + b'maintenance'),
+            ('shutdown-short', bytes([200]) + b'abc'),
+            ('shutdown-long', bytes([255]) + b'y' * 255),
+            ('shutdown-bad-utf8', bytes([3, 0xFF, 0xFE, 0x80])),
+            ('shutdown-zero-len', bytes([0]) + b'trailer'),
+            ('ascii', b'plain text'),
+            ('control-chars', bytes(range(32)) + b'\x7f"\\'),
+            ('utf8', 'arrêt ✓'.encode()),
+            ('random', bytes(rng.getrandbits(8) for _ in range(rng.choice([2, 3, 7, 40])))),
+        ]
+        if quick:
+            # the size-heavy shapes on the pairs that have a renderer of their own + a rotating sample of the others
+            special = (c, s) in ((6, 2), (6, 4)) or (c == 6 and s >= 8) or rng.random() < 0.08
+            shapes = [x for x in shapes if x[0] not in ('self-max', 'shutdown-long') or special]
+        for label, data in shapes:
+            if 2 + len(data) <= room:
+                out.append(Case(3, me + data, 'enumerated', f'notification:{label}', True, c * 256 + s))
+    out.append(Case(3, b'', 'enumerated', 'notification:no-code', True))
+    out.append(Case(3, b'\x06', 'enumerated', 'notification:no-subcode', True))
+    # ROUTE-REFRESH: every subtype the handler distinguishes x families (negotiated, not, reserved values)
+    for afi, safi in sorted(sh.fams)[:6] + [(0, 0), (3, 1), (65535, 255), (1, 0), (25, 70), (16388, 71)]:
+        for res in (0, 1, 2):
+            out.append(Case(5, u16(afi) + bytes([res, safi]), 'enumerated', 'refresh', True, res))
+    # OPERATIONAL: every registered type + unknown ones x payload shapes around the sizes the decoder checks
+    from exabgp.bgp.message.operational import Operational
+
+    types = sorted(int(k) for k in Operational.registered_operational) + [0, 99, 0xFFFF]
+    fam = u16(1) + bytes([1])
+    rid = bytes([1, 1, 1, 1])
+    for t in types:
+        for label, payload in [
+            ('empty', b''),
+            ('afi-only', u16(1)),
+            ('family', fam),
+            ('family+text', fam + b'advisory text'),
+            ('family+utf8', fam + 'café'.encode()),
+            ('family+bad-utf8', fam + b'\xff\xfe'),
+            ('family+long', fam + b'z' * 2100),
+            ('family+rid', fam + rid),
+            ('query', fam + rid + u32(7)),
+            ('query-zero', fam + bytes(8)),
+            ('counter', fam + rid + u32(7) + u32(9)),
+            ('counter-max', fam + rid + b'\xff' * 8),
+            ('counter+extra', fam + rid + u32(7) + u32(9) + b'extra'),
+            ('unknown-family', u16(65535) + bytes([255]) + rid + u32(1) + u32(2)),
+            ('random', bytes(rng.getrandbits(8) for _ in range(rng.choice([1, 5, 9, 16, 30])))),
+        ]:
+            if 4 + len(payload) <= room:
+                out.append(Case(6, u16(t) + u16(len(payload)) + payload, 'enumerated', f'operational:{label}', None, t))  # (the draft's per-type minimum sizes decide validity: not claimed)
+    # OPEN: every capability code 0-255 once with an empty, a 1-byte and a plausible value (str/json of each is forced)
+    plausible = {1: u16(1) + bytes([0, 1]), 2: b'', 5: u16(1) + u16(1) + u16(2), 6: b'', 64: u16(120) + u16(1) + bytes([1, 0x80]), 65: u32(65001), 69: u16(1) + bytes([1, 3]),
+                 70: b'', 73: bytes([2]) + b'r1' + bytes([3]) + b'net', 75: bytes([3]) + b'6.0', 76: u16(1) + bytes([1]) + u16(5), 77: b'', 128: b'', 131: bytes([1, 2]), 68: bytes([1, 2]), 185: b''}
+    for code in range(256):
+        for label, val in [('empty', b''), ('1-byte', b'\x01'), ('plausible', plausible.get(code, bytes([code & 255]) * 4)), ('long', bytes([code & 255]) * 60)]:
+            if quick and label in ('1-byte', 'long') and code not in plausible and code % 8:
+                continue
+            caps = [cap(1, u16(1) + bytes([0, 1])), cap(65, u32(65001)), cap(code, val)]
+            body = open_body(65001, 180, bytes([2, 2, 2, 2]), caps, 'one-param')
+            if body is not None:
+                # an ill-formed value of a KNOWN capability may be refused (2/0): validity is not claimed for those
+                out.append(Case(1, body, 'enumerated', f'open:cap-{label}', True if (label == 'plausible' or code not in plausible) and code not in (1, 65) else None, code))
+    return out
+
+
 def unknown_types(rng: Any) -> list[Case]:
     return [Case(t, bytes(rng.getrandbits(8) for _ in range(rng.choice([0, 1, 4, 40]))), 'unknown-type', 'unknown-type', None, t) for t in [0, 7, 8, 9, 100, 251, 252, 253, 254, 255]]
 
@@ -801,7 +886,7 @@ class Judge:
                         body = cand
                         changed = True
                         break
-        elif len(body) <= 6000 and not need_ref:
+        elif (len(body) <= 6000 or out.cls in ('recursion', 'timeout')) and not need_ref:
             step = max(1, len(body) // 2)
             while step >= 1:
                 if len(body) - step >= 0 and same(sh, body[: len(body) - step]):
@@ -1039,6 +1124,12 @@ def run(ctx: Ctx) -> None:
     for name in list(judge.pending):
         judge.flush(T.build_shape(next(s for s in T.ALL_SPECS if s[0] == name)))
 
+    # 0b. the enumerated non-UPDATE stream (NOTIFICATION code x subcode x data shape, every capability code, REFRESH,
+    #     OPERATIONAL): deterministic, never cut by the clock; their lazy parts do not depend on the session shape
+    for case in enumerated_non_update(rng, shapes[0], ctx.tier):
+        judge.run_case(shapes[0], case)
+        ctx.count('enumerated:' + case.label.split(':')[0])
+
     n_enc = 30 if quick else 1500
     n_other = 6 if quick else 150
     n_rand = 80 if quick else 3000
@@ -1054,6 +1145,8 @@ def run(ctx: Ctx) -> None:
         valid += valid_opens(rng, sh, n_other)
         valid += valid_others(rng, sh, n_other)
         valid += unknown_types(rng)
+        if si > 0 and not quick:
+            valid += enumerated_non_update(rng, sh, ctx.tier)
         if quick and si > 0:
             # the giants (64 KB of routes through four encoders) run on the first 65535 shape only in the quick tier
             valid = [c for c in valid if len(c.body) <= 6000]
